@@ -105,6 +105,10 @@ CFG = {
                        # moved to the next project working slot shows as idle time of the resource
                        (1, Knobs(envelope="asap", max_res=3, max_tasks=6, p_dep=0.85, p_gap=0.1, p_glen=0.9, p_wh=0.85, p_tz=0.3,
                                  p_limits=0.0, p_tasklimits=0.0, p_leave=0.2, big_effort=0.5)),
+                       # directions declared on containers and single tasks (`scheduling alap` inherited by the children): outside the
+                       # oracle's envelopes, compared with the model
+                       (1, Knobs(envelope="mixed", p_taskmode=0.5, p_container=0.75, max_res=2, max_tasks=6, p_limits=0.0,
+                                 p_tasklimits=0.0, p_dep=0.4, dur_weeks=[3, 4])),
                        # sparse backward projects with nested containers and equal local ids: wrong deadlines show as idle time
                        (1, Knobs(envelope="alap", max_res=2, max_tasks=6, p_twin=0.7, p_container=0.85, p_dep=0.8, p_gap=0.3,
                                  p_limits=0.0, p_tasklimits=0.0, big_effort=0.0, dur_weeks=[3, 4])),
